@@ -137,7 +137,7 @@ func init() {
 		Explanation: "Decides three structural clauses: (1) operands are never modified — the purity obligations of the write-effect analysis on Sequence.Merge/SubMerge/Truncate, every Expr.Merge/Get and every SubMerge function (exactly the property's 'never modifies its operands'); (2) every combiner reads both operands (an operand-ignoring merge cannot be a homomorphism); (3) cached encoded widths agree with the wrapped expression. Added clauses: shift sub-mergers offset with the source's width; Merge returns a raw operand only when the other is empty; the expiry early-out of Merge tests the older operand's Until(). Further clauses: Update/Merge advance the buffer (= C01.h); SubMerge reads the receiver's bounds from Truncate's result.",
 		NotDecided:  []string{"commutativity/associativity in value", "alignment arithmetic of Merge (lead/overlap/gap/tail), SubMerge index arithmetic, Truncate boundaries — these quantify over numeric values"},
 		Assumptions: []string{"external pure-reader table follows documented contracts", "VTA call graph over-approximates dynamic calls"},
-		Rules:       []func(*Ctx){func(c *Ctx) { rulePurity(c, "C05.a") }, ruleC05b, ruleC05c, func(c *Ctx) { ruleC05d(c, "C05.d") }, func(c *Ctx) { ruleC05e(c, "C05.e") }, func(c *Ctx) { ruleMergeExpiry(c, "C05.f") }, func(c *Ctx) { ruleExprAdvances(c, "C05.g") }, func(c *Ctx) { ruleC05h(c, "C05.h") }},
+		Rules:       []func(*Ctx){func(c *Ctx) { rulePurity(c, "C05.a") }, ruleC05b, ruleC05c, func(c *Ctx) { ruleC05d(c, "C05.d") }, func(c *Ctx) { ruleC05e(c, "C05.e") }, func(c *Ctx) { ruleMergeExpiry(c, "C05.f") }, func(c *Ctx) { ruleExprAdvances(c, "C05.g") }, func(c *Ctx) { ruleC05h(c, "C05.h") }, func(c *Ctx) { ruleC05i(c, "C05.i") }},
 	})
 }
 
@@ -303,4 +303,43 @@ func ruleC05h(c *Ctx, rule string) {
 		return
 	}
 	c.check(rule, "SubMerge reads the receiver's bounds after truncating it", sm.Pos(), bad == "", "Until/AsOf/NumPeriods are taken from Truncate's result", "a time bound of the untruncated receiver enters the offset arithmetic ("+bad+"): when the stored coarse series reaches past the roll-up's 'until', fine periods are merged into the wrong coarse periods or dropped, and the result depends on how the input was split")
+}
+
+// ruleC05i: a stored field that IS the conditional expression is merged alone.
+func ruleC05i(c *Ctx, rule string) {
+	c.describe(rule, "dom: in (*ifExpr).SubMergers an exact match of the IF expression among the source fields is exclusive — the wrapped expression's sub-mergers are consulted only when no exact match exists (the call of Wrapped.SubMergers is guarded by the 'matched' flag being false); merging both the stored IF field and the condition-guarded stored operand counts every matching point twice when a table stores X and IF(cond, X)")
+	fn := c.need(rule, "(*z/expr.ifExpr).SubMergers")
+	if fn == nil {
+		return
+	}
+	n := 0
+	for _, call := range calls(fn) {
+		if calleeName(call) != "invoke (z/expr.Expr).SubMergers" {
+			continue
+		}
+		n++
+		guarded := false
+		for _, g := range guardsOf(call.Block()) {
+			if g.pos || typeStr(g.v.Type()) != "bool" {
+				continue
+			}
+			hasT, hasF, other := false, false, false
+			for _, leaf := range phiLeaves(g.v) {
+				if b, isC := constBool(leaf); isC {
+					if b {
+						hasT = true
+					} else {
+						hasF = true
+					}
+				} else {
+					other = true
+				}
+			}
+			if hasT && hasF && !other {
+				guarded = true
+			}
+		}
+		c.check(rule, "ifExpr.SubMergers: the wrapped operand is used only without an exact match", call.Pos(), guarded, "Wrapped.SubMergers is reached only when matched == false", "the wrapped expression's sub-mergers are combined with an exact match of the IF itself: with both X and IF(cond, X) stored, re-aggregating the IF field merges the stored IF column and the guarded X column — every point that satisfies the condition is counted twice")
+	}
+	c.floor(rule, "Wrapped.SubMergers calls in ifExpr.SubMergers", n, 1)
 }
